@@ -356,7 +356,7 @@ Section Run.
         if iter_exists s i then
           it <- iter_get i ;;
           match it with
-          | IDrain d => n <- drain_hint d ;; ret (TOk, RHint n (Some n))
+          | IDrain d => n <- drain_hint_at i ;; ret (TOk, RHint n (Some n))
           | IInto t => n <- into_len_at i ;; ret (TOk, RHint n (Some n))
           | IFilter f => ret (TOk, RHint 0 (Some (f_old f - f_pos f)))
           end
